@@ -17,7 +17,7 @@ CONSTANTS
   Transparent = {"INT"}
   MaxSend = 1
   ProcTarget = FALSE
-  FixQuietDup = FALSE
+  FixQuietDup = TRUE
   FixQuietFront = FALSE
   FixStepIntr = FALSE
   FixSwallow = FALSE
